@@ -146,6 +146,13 @@ func c05Run(sc c05Scn) c05Out {
 	if res.Panic != "" {
 		return fail("panic|"+sess.PanicSiteOf(res.Stack), "%s", res.Panic)
 	}
+	// the forwarder list handed to the mailbox is the one the peer announced (hashes stripped, all items)
+	wantFW := map[int]string{0: peerCall, 1: peerCall + " " + peerCall + "-5 AUX1", 2: ""}[sc.FW]
+	for _, c := range box.CallsOf("GetOutbound") {
+		if !strings.EqualFold(c.FW, wantFW) {
+			return fail("forwarders-handed-to-the-handler", "GetOutbound was called with %q, the peer's ;FW line announced %q", c.FW, wantFW)
+		}
+	}
 	// the one known event-finding: answer H (accepted, will be held) is treated as defer
 	usedH := len(peer.HeldMIDs) > 0
 	if len(peer.Complaints) > 0 {
